@@ -115,11 +115,16 @@ def run_check(pid, module, tier, seed, replay=None):
     lost = sorted({m_ for f in ctx._facts.values() for m_ in f.normalisation.get('missing_reviewed', [])})
     if lost:
         touched = {b.path for f in ctx._facts.values() for b in f.bodies.values() if b.j.get('inlined')}
+        # ... and the reviewed callers of the vanished functions: their code now lives there, in a shape nobody reviewed
+        import normalize
+        A_ = normalize.audit().get('functions', {})
+        for m_ in lost:
+            touched |= set(A_.get(m_, {}).get('callers', []))
         keep_v = []
         for full, o in violations:
             fn = (o.where or '').split(' (')[0]
             if fn in touched or fn.split('::{closure')[0] in touched:
-                ctx.deferred.append('verdict %s withheld: %s was restructured (reviewed function(s) %s no longer exist and helper code was inlined into it)' % (full, fn, lost))
+                ctx.deferred.append('verdict %s withheld: %s was restructured (reviewed function(s) %s no longer exist; it called them or received inlined helper code)' % (full, fn, lost))
             else:
                 keep_v.append((full, o))
         violations = keep_v
